@@ -183,6 +183,17 @@ def configs():
     out.append(dict(names=["p" * 65, "q" * 300, "r" * 129 + "1", "r" * 129 + "2"],
                     defaults=[0.5, 0.0, 1.0, 1.0], mins=[0.0, -1.0, 0.0, 0.0],
                     maxs=[1.0, 1.0, 2.0, 2.0], check_hitbounds=False, accept_nan=True))
+    # an element whose two bounds coincide (a parameter fixed by its bounds), next to a
+    # free one
+    out.append(dict(names=["fixed", "free"], defaults=[2.0, 0.5], mins=[2.0, 0.0],
+                    maxs=[2.0, 1.0], check_hitbounds=True, accept_nan=False))
+    out.append(dict(names=["free", "fixed"], defaults=[0.5, -1.0], mins=[0.0, -1.0],
+                    maxs=[1.0, -1.0], check_hitbounds=True, accept_nan=True))
+    # names made of digits, not in the order of their positions
+    out.append(dict(names=["2", "0", "1"], defaults=[0.5, 1.5, 2.5], mins=[0.0, 1.0, 2.0],
+                    maxs=[1.0, 2.0, 3.0], check_hitbounds=True, accept_nan=False))
+    out.append(dict(names=["10", "1"], defaults=[0.5, 5.0], mins=[0.0, 4.0],
+                    maxs=[1.0, 6.0], check_hitbounds=False, accept_nan=False))
     out.append(dict(names=[], defaults=[], mins=[], maxs=[], check_hitbounds=True,
                     accept_nan=False))
     out.append(dict(names=[], defaults=[], mins=[], maxs=[], check_hitbounds=False,
@@ -406,7 +417,8 @@ def apply_op(ctx, v, m, op, case):
         ctx.tag("vec:rejected")
         raised = True
         for bk in ("no_such_name", "values", "_values", "_maxs", "_mins", "_defaults",
-                   "hitbounds", "_hitbounds", "names", "nval", "maxs", "defaults"):
+                   "hitbounds", "_hitbounds", "names", "nval", "maxs", "defaults",
+                   "0", "1", "2", "-1", "00"):
             if bk in getattr(m, "names", ()):
                 continue
             try:
